@@ -48,6 +48,30 @@ def compare_table(rep, rule, name, tab, spec_codes, width, subst=None, loc=""):
     return n
 
 
+def frame_number_reader_rules(F, rep, P):
+    """the coded frame / sample number (RFC 9639 9.1.5): every continuation byte must start with the bits 10 and
+    carries 6 payload bits; a lone continuation byte (unary count 1) and counts above 7 are rejected"""
+    bs = [b for b in F.bodies if b.promoted is None and b.kind != "Closure" and b.path == "<stream::FrameNumber as bitstream_io::FromBitStream>::from_reader"]
+    if not bs:
+        rep.bad(P + ".utf8", "anchor:FrameNumber::from_reader", "", "not found")
+        return
+    b = bs[0]
+    import loops
+    cyc = set()
+    for comp in loops.cfg_sccs(b):
+        cyc |= set(comp)
+    rc = [(bi, t) for bi, t in b.calls() if (t["f"].get("path") or "") == "bitstream_io::BitRead::read_const"]
+    rd = [(bi, t) for bi, t in b.calls() if (t["f"].get("path") or "") == "bitstream_io::BitRead::read"]
+    targs = lambda t: [x for x in t["f"]["args"] if not x.startswith("'")][1:]
+    in_loop_const = [(bi, t) for bi, t in rc if bi in cyc and targs(t)[:2] == ["2", "2"]]
+    in_loop_read6 = [(bi, t) for bi, t in rd if bi in cyc and targs(t)[:1] == ["6"]]
+    good = len(in_loop_const) == 1 and len(in_loop_read6) == 1 and b.dominates(in_loop_const[0][0], in_loop_read6[0][0])
+    rep.check(P + ".utf8", "reader: every continuation byte of the coded number is checked to start with 0b10 before its 6 payload bits are taken", good, loc_of(b), "",
+              "continuation bytes of the coded frame number are no longer validated (read_const::<2, 0b10>): malformed headers with a valid CRC are accepted")
+    shl = [s_ for bi, bl in enumerate(b.blocks) if bi in cyc for s_ in bl["s"] if s_["rv"]["r"] == "bin" and s_["rv"]["op"] == "Shl" and op_int(s_["rv"]["b"]) == 6]
+    rep.check(P + ".utf8", "reader: the accumulated number is shifted by 6 per continuation byte", len(shl) == 1, loc_of(b))
+
+
 def run(ctx, rep):
     F = ctx.facts()
     spec = ctx.spec("rfc9639.json")
@@ -244,4 +268,8 @@ def run(ctx, rep):
                       "on the equality edge", "MD5Match reachable without digest equality: %s" % fact_str(f))
     from rules import C17
     from okimplies import OkImplies as _OK
-    C17.decoder_depth_rules(F, _OK(F, ctx.cg()), rep, "C03")
+    _ok = _OK(F, ctx.cg())
+    C17.decoder_depth_rules(F, _ok, rep, "C03")
+    C17.decoder_shift_rules(F, _ok, rep, "C03")
+    C17.partition_guard_rules(F, _ok, rep, "C03")
+    frame_number_reader_rules(F, rep, "C03")
